@@ -32,6 +32,12 @@ def run(ctx):
         for t in ('? &k !!python/object:tools.c11custom.Point {me: *k}\n: v\n', '!!set\n? &k !!python/object:tools.c11custom.Point {me: *k}\n',
                   '- {? &k !!python/object:tools.c11custom.Point {me: *k, x: 1} : v}\n', '{&k !!python/object:tools.c11custom.Point {me: *k}: 1}\n'):
             special.append(['selfkey', t, L])
+    # a container used as (part of) its own key / as a set member, and aliased lists / dicts in key position: unbuildable - every loader must
+    # reject them with a ConstructorError (never a bare TypeError, never a result)
+    for L in ('SafeLoader', 'FullLoader', 'UnsafeLoader', 'CSafeLoader', 'CFullLoader', 'CUnsafeLoader'):
+        for t in ('&a !!set {*a}\n', '&a !!set\n? *a\n', '- &l [1]\n- !!set {*l}\n', '- &d {x: 1}\n- !!set {*d, y}\n', '&a {*a: 1}\n', '- &l [1]\n- {*l: v}\n',
+                  '&a !!set {x, *a, y}\n', '&a [!!set {*a}]\n', '&a {k: {*a: 1}}\n', '- &d {x: 1}\n- ? *d\n  : v\n', '&a !!set {? [*a]}\n'):
+            special.append(['unhashable', t, L])
     corr.direct(ctx, 'c13x', special, describe=lambda c: dict(probe=c[0], text=c[1], loader=c[2]), label='special')
     corr.direct(ctx, 'c13m', multi, describe=lambda c: dict(text=c[0], expect=c[2], loader=c[3]), label='across_documents')
     ctx.partial = [dict(theorem='compose_alias_identity / construct_identity (whole documents, cycles)', missing='one-step lemmas proved; the global iff is decided by correspondence and the direct run')]
